@@ -23,6 +23,10 @@ type parseCase struct {
 	Entry string            `json:"entry"` // Parse | ParseOperation | ParseOperationBatch | GetRevealValue | GetCommitment | ParseDID | Handler
 	Proto protocol.Protocol `json:"proto"`
 	Input string            `json:"input"` // base64url
+	// HandlerWarm: a handler serving two protocol versions (Proto0 from genesis 0, Proto from its own genesis time) first
+	// processes Warm under version 0, then Input under Proto's version; the reply reports the second call
+	Proto0 *protocol.Protocol `json:"proto0,omitempty"`
+	Warm   string             `json:"warm,omitempty"`
 }
 
 func parseCall(p []byte) (reply []byte) {
@@ -58,6 +62,22 @@ func parseCall(p []byte) (reply []byte) {
 		_, err = dh.ProcessOperation(in, c.Proto.GenesisTime)
 		if (err == nil) != (w.Len() == 1) {
 			return []byte(fmt.Sprintf("PANIC:handler returned err=%v but recorded %d writer adds", err, w.Len()))
+		}
+	case "HandlerWarm":
+		v0 := hx.NewVersion(*c.Proto0, hx.VersionOpts{})
+		pc := hx.NewClient(v0, v)
+		w := &hx.RecWriter{}
+		dh := dochandler.New(hx.Namespace, nil, pc, w, processor.New("verif", hx.NewOpStore(), pc), hx.NopMetrics{})
+		if c.Warm != "" {
+			warm, _ := ref.UnB64(c.Warm)
+			if _, werr := dh.ProcessOperation(warm, c.Proto0.GenesisTime); werr != nil {
+				return []byte("SKIP:warm-up request refused: " + werr.Error())
+			}
+		}
+		before := w.Len()
+		_, err = dh.ProcessOperation(in, c.Proto.GenesisTime)
+		if (err == nil) != (w.Len() == before+1) {
+			return []byte(fmt.Sprintf("PANIC:handler returned err=%v but recorded %d writer adds", err, w.Len()-before))
 		}
 	}
 	if err != nil {
@@ -334,7 +354,7 @@ func c10Requests(r *hx.Rng, code uint64, keyType string, nonce bool, pad int) []
 }
 
 func checkC10(c *hx.Ctx) {
-	c.Rule("(A) valid requests of the four types for every key type / hash algorithm must be accepted; (B) every member of the request, of suffix data / delta, of the protected header and of the signed payload (re-signed) is removed, nulled, emptied, type-confused or swapped with another request's value: whenever Parse (and DocumentHandler.ProcessOperation for creates) accepts, an independent predicate over the raw JSON (sizes, multihash well-formedness/algorithm/length, alg/curve/nonce/patch allow-lists, reveal = hash of signing key, commitment rules) must hold; (C) each limit (request size via JSON whitespace, canonical delta size via an adjustable string, hash length 46/88 vs MaxOperationHashLength, nonce size, each alg / curve / patch action removed from its allow-list) is checked exactly at and one past its boundary, each under >= 7 configurations that move one OTHER parameter: accepted at, rejected past, decision independent of the other parameter; (D) arbitrary bytes and structurally damaged requests into Parse, ParseOperation (batch on/off), GetRevealValue, GetCommitment, ParseDID must return, never panic; crash-isolated workers; non-trivial = mutated or boundary input; distinct = distinct (input, configuration, entry point)")
+	c.Rule("(A) valid requests of the four types for every key type / hash algorithm must be accepted; (B) every member of the request, of suffix data / delta, of the protected header and of the signed payload (re-signed) is removed, nulled, emptied, type-confused or swapped with another request's value: whenever Parse (and DocumentHandler.ProcessOperation for creates) accepts, an independent predicate over the raw JSON (sizes, multihash well-formedness/algorithm/length, alg/curve/nonce/patch allow-lists, reveal = hash of signing key, commitment rules) must hold; (C) each limit (request size via JSON whitespace, canonical delta size via an adjustable string, hash length 46/88 vs MaxOperationHashLength, nonce size, each alg / curve / patch action removed from its allow-list) is checked exactly at and one past its boundary, each under >= 7 configurations that move one OTHER parameter: accepted at, rejected past, decision independent of the other parameter; (E) a limit of zero admits nothing; (F) a DocumentHandler serving two protocol versions judges a create submitted for the later, stricter version by that version's rules also after having served the earlier version; (D) arbitrary bytes and structurally damaged requests into Parse, ParseOperation (batch on/off), GetRevealValue, GetCommitment, ParseDID must return, never panic; crash-isolated workers; non-trivial = mutated or boundary input; distinct = distinct (input, configuration, entry point)")
 	pool := hx.NewPool(c, "parse", 16, 4*1024*1024, 30*time.Second)
 	defer pool.Close()
 	call := func(entry string, p protocol.Protocol, in []byte) (string, string, bool) {
@@ -544,6 +564,95 @@ func checkC10(c *hx.Ctx) {
 		}
 	})
 
+	// ---------- (E) degenerate limits: a limit of zero admits nothing (no parameter stands in for another one)
+	{
+		er := c.Rng("zero-limits")
+		for _, kt := range []string{"P-256", "Ed25519"} {
+			for _, v := range c10Requests(er, ref.SHA256, kt, true, 0) {
+				raw := ref.MustJCS(v.req)
+				zero := []protoVariant{
+					{"MaxOperationSize=0", func(p *protocol.Protocol) { p.MaxOperationSize = 0 }},
+					{"MaxOperationHashLength=0", func(p *protocol.Protocol) { p.MaxOperationHashLength = 0 }},
+				}
+				if v.typ != "deactivate" {
+					zero = append(zero, protoVariant{"MaxDeltaSize=0", func(p *protocol.Protocol) { p.MaxDeltaSize = 0 }},
+						protoVariant{"MaxDeltaSize=1", func(p *protocol.Protocol) { p.MaxDeltaSize = 1 }})
+				}
+				for _, z := range zero {
+					p := base
+					z.mut(&p)
+					if !expect("Parse", p, raw, false, fmt.Sprintf("zero-limit %s request under %s", v.typ, z.name)) {
+						return
+					}
+				}
+			}
+		}
+	}
+	// ---------- (F) one document handler serving two protocol versions: a request submitted for the later, stricter version
+	// is judged by that version's rules although the same handler has just served the earlier, permissive version
+	{
+		fr := c.Rng("two-version-handler")
+		strict := []protoVariant{
+			{"MaxOperationSize=200", func(p *protocol.Protocol) { p.MaxOperationSize = 200 }},
+			{"MaxDeltaSize=50", func(p *protocol.Protocol) { p.MaxDeltaSize = 50 }},
+			{"only ES384/P-384", func(p *protocol.Protocol) { p.SignatureAlgorithms, p.KeyAlgorithms = []string{"ES384"}, []string{"P-384"} }},
+			{"only sha2-512", func(p *protocol.Protocol) { p.MultihashAlgorithms = []uint{ref.SHA512} }},
+			{"only replace patches", func(p *protocol.Protocol) { p.Patches = []string{"replace"} }},
+			{"MaxOperationHashLength=20", func(p *protocol.Protocol) { p.MaxOperationHashLength = 20 }},
+		}
+		warmReqs := c10Requests(fr, ref.SHA256, "P-256", false, 0)
+		var warm []byte
+		for _, v := range warmReqs {
+			if v.typ == "create" {
+				warm = ref.MustJCS(v.req)
+			}
+		}
+		for _, kt := range []string{"P-256", "Ed25519"} {
+			for _, v := range c10Requests(fr, ref.SHA256, kt, false, 1) {
+				if v.typ != "create" {
+					continue
+				}
+				raw := ref.MustJCS(v.req)
+				for _, sv := range strict {
+					p1 := base
+					p1.GenesisTime = 100
+					sv.mut(&p1)
+					if predicate(p1, raw) == "" {
+						continue // this request does not break the stricter rule
+					}
+					for _, w := range [][]byte{nil, warm} {
+						c.Eval()
+						b, _ := json.Marshal(parseCase{Entry: "HandlerWarm", Proto: p1, Proto0: &base, Input: ref.B64(raw), Warm: ref.B64(w)})
+						if w == nil {
+							b, _ = json.Marshal(parseCase{Entry: "HandlerWarm", Proto: p1, Proto0: &base, Input: ref.B64(raw)})
+						}
+						reply, crash := pool.Call(b)
+						if crash != nil {
+							c.Violation("C10 two-version handler crashed the process: "+crash.CrashSig(), map[string]interface{}{"request": string(raw), "stderr": crash.Detail})
+							return
+						}
+						rs := string(reply)
+						switch {
+						case strings.HasPrefix(rs, "OK:"):
+							c.Violation(fmt.Sprintf("C10 a handler serving two protocol versions accepted, for the stricter version (%s), a create that breaks its rule (%s); served version 0 before: %v", sv.name, predicate(p1, raw), w != nil),
+								map[string]interface{}{"request": string(raw), "strict_protocol": p1, "warm_up_request": string(w)})
+							return
+						case strings.HasPrefix(rs, "PANIC:"):
+							c.Violation("C10 two-version handler: "+rs, map[string]interface{}{"request": string(raw)})
+							return
+						case strings.HasPrefix(rs, "ERR:"):
+							c.Count(fmt.Sprintf("two_version_handler_rejected_warm=%v", w != nil))
+							c.Distinct("2vh|" + sv.name + "|" + kt + fmt.Sprint(w != nil))
+						default:
+							c.Count("two_version_handler_skipped")
+						}
+					}
+				}
+			}
+		}
+	}
+	c.Floor("two_version_handler_rejected_warm=true", 5)
+	c.Floor("boundary_ok:zero-limit", 10)
 	// ---------- (C) boundaries x configurations
 	others := []protoVariant{
 		{"base", func(p *protocol.Protocol) {}},
